@@ -231,6 +231,23 @@ pub fn joints_uniform(rng: &mut Rng, lim: f64) -> [f64; 6] {
     q
 }
 
+/// Joint vector in which individual joints rest at special values: exactly 0.0 / -0.0 (home position,
+/// jogging a single axis), exact right angles, denormal or rounding-residue sized values; the other
+/// joints are uniform in [-lim, lim].
+pub fn joints_resting(rng: &mut Rng, lim: f64) -> [f64; 6] {
+    let mut q = joints_uniform(rng, lim);
+    for j in 0..6 {
+        match rng.usize(20) {
+            0..=4 => q[j] = 0.0,
+            5 => q[j] = -0.0,
+            6 => q[j] = *rng.pick(&[PI / 2.0, -PI / 2.0, PI, -PI]),
+            7 => q[j] = rng.sign() * *rng.pick(&[5e-324, 1e-300, 1e-17, 1e-12]),
+            _ => {}
+        }
+    }
+    q
+}
+
 /// Joint vector with classes: 0 uniform [-pi,pi], 1 uniform [-2pi,2pi], 2 up to 1e3 turns, 3 up to 1e6 turns
 pub fn joints_class(rng: &mut Rng, class: usize) -> [f64; 6] {
     match class {
